@@ -111,6 +111,10 @@ CHECKS["C11"] = {
          "with": ["state_export", "backend_export", "verifdb"], "goroutines": True, "replay_timeout_s": 60,
          "params": {"quick": grid(state=[0], n=[0, 1]), "thorough": grid(state=[0, 1, 2], n=[1, 2, 3])},
          "summarise": SCAN_SUMMARISE, "cover": ["served"]},
+        {"name": "wirelines", "pkg": "internal/session", "pkgname": "session", "entry": "VerifC11WireLines", "files": ["zz_verif_c18.go", "zz_verif_c18b.go", "zz_verif_c11wire.go"],
+         "with": ["state_export", "backend_export", "verifdb"], "goroutines": True, "concrete_time": True, "replay_timeout_s": 60,
+         "params": {"quick": grid(m=[1, 2]), "thorough": grid(m=[3, 4])},
+         "cover": ["lines-served"]},
         {"name": "nesting", "pkg": "imap/command", "pkgname": "command", "entry": "VerifC11Nesting", "files": ["zz_verif_c11.go", "zz_verif_reader.go"],
          "params": {"quick": grid(unit=[0, 1, 2], k=[64], amplify=[8000000]), "thorough": grid(unit=[0, 1, 2], k=[64, 128], amplify=[8000000])},
          "cover": ["nesting-run"], "max_depth": 1000, "replay_accept_crash": True, "replay_timeout_s": 300},
